@@ -302,3 +302,61 @@ func StartTCP(opts ...attachment.Option) (string, error) {
 	}
 	return "", fmt.Errorf("attachment server did not start")
 }
+
+// RunPipeStaged writes burst as ONE write (one server read over net.Pipe, whatever its size up to the server's buffer), waits up
+// to quiet for `want` reply frames, and only then writes the sentinel. It reports how many replies had arrived before the
+// sentinel was sent and how long after the sentinel the remaining ones came: replies that a terminal is waiting for must not
+// depend on further input.
+func RunPipeStaged(d consts.ActiveSafetyType, burst, sentinel []byte, want int, quiet time.Duration) (before, total int, afterDelay time.Duration, timedOut bool) {
+	g := attachment.New(attachment.WithActiveSafetyType(d), attachment.WithFileEventerFunc(func() attachment.FileEventer { return &Recorder{} }))
+	cli, srv := net.Pipe()
+	done := make(chan struct{})
+	go func() { attachment.VerifServeConn(g, srv); close(done) }()
+	var n atomic.Int64
+	go func() {
+		buf := make([]byte, 8192)
+		in := false
+		for {
+			k, err := cli.Read(buf)
+			for _, b := range buf[:k] {
+				if b == 0x7e {
+					if in {
+						n.Add(1)
+					}
+					in = !in
+				}
+			}
+			if err != nil {
+				return
+			}
+		}
+	}()
+	cli.SetWriteDeadline(time.Now().Add(20 * time.Second))
+	if _, err := cli.Write(burst); err != nil {
+		cli.Close()
+		return 0, 0, 0, true
+	}
+	t0 := time.Now()
+	for time.Since(t0) < quiet && int(n.Load()) < want {
+		time.Sleep(200 * time.Microsecond)
+	}
+	before = int(n.Load())
+	t1 := time.Now()
+	cli.SetWriteDeadline(time.Now().Add(20 * time.Second))
+	if _, err := cli.Write(sentinel); err != nil {
+		cli.Close()
+		return before, before, 0, true
+	}
+	for time.Since(t1) < quiet && int(n.Load()) < want+1 {
+		time.Sleep(200 * time.Microsecond)
+	}
+	afterDelay = time.Since(t1)
+	total = int(n.Load())
+	cli.Close()
+	select {
+	case <-done:
+	case <-time.After(20 * time.Second):
+		timedOut = true
+	}
+	return
+}
